@@ -129,8 +129,7 @@ def compare(mode, prog, stdin_text, proc, recs, limits):
                 if ri >= len(recs) or recs[ri]['k'] != 'error':
                     return div('reference stops with an encoding error, real run does not', step, loc=loc,
                                next_record=(recs[ri] if ri < len(recs) else None), rc=proc.rc), info
-                if 'utf-8 encoding error' not in recs[ri].get('msg', ''):
-                    return div('error kind', step, observed=recs[ri]), info
+                # the wording of the error is not fixed by the property: any diagnosed error at this point counts
                 info['ending'] = 'encerr'
                 return None, info
         if ri >= len(recs):
@@ -146,7 +145,8 @@ def compare(mode, prog, stdin_text, proc, recs, limits):
         try:
             cur, stacks = parse_state(r['state'])
         except ValueError as ex:
-            return div('state dump unreadable: %s' % ex, step), info
+            # the monitor cannot observe: never a verdict on the code
+            return None, dict(info, aborted='state dump unreadable: %s' % ex)
         if cur != m.cur:
             return div('selected stack', step, loc=loc, command=prog[loc], expected=m.cur, observed=cur), info
         want = m.nonempty_stacks()
